@@ -16,8 +16,12 @@ StatKeys == {"reaction_cnt", "balanced_cnt", "rb_applied", "rb_solved", "mcs_app
 SV(st, k) == IF k \in DOMAIN st THEN st[k] ELSE 0
 Fails(e, clause, ok) == IF ok THEN <<>> ELSE << <<e.id, clause>> >>
 
-KeysOfRun(e) == {<<e.batches[j], e.cfg>> : j \in 1..Len(e.batches)}
-PredictedHits(e, d) == [j \in 1..Len(e.batches) |-> <<e.batches[j], e.cfg>> \in d]
+\* the call cuts its input into chunks (e.chunks: one per named batch, or the whole input when batch_size is
+\* None); an entry is identified by the rows of the chunk and the part of the configuration results depend on
+KeysOfRun(e) == {<<e.chunks[j], e.keycfg>> : j \in 1..Len(e.chunks)}
+PredictedHits(e, d) == [j \in 1..Len(e.chunks) |->
+                          \/ <<e.chunks[j], e.keycfg>> \in d
+                          \/ \E k \in 1..(j - 1) : e.chunks[k] = e.chunks[j]]
 
 Judge(e, d) ==
        Fails(e, "RunDoesNotRaise", e.raised = "")
